@@ -104,6 +104,20 @@ def main(argv=None):
                                    failures=bounded['nfails'], wall_s=round(bounded['wall_s'], 2))
         coverage.setdefault('samples', [])
         coverage['samples'] = coverage['samples'] + bounded['samples'][:4]
+    # ---- a failed obligation of a function whose contract is violated by a real execution in this run gets that input --------
+    real = {}
+    for f in fails:
+        if f.get('site', '').startswith('contract:') and f.get('case') is not None:
+            real.setdefault(f['site'][len('contract:'):].split('#')[0], f)
+    for f in fails:
+        if f.get('no_input') and f.get('function'):
+            tgt = (f.get('target') or '').split('[')[0].split('!')[0]
+            hit = real.get(tgt) or real.get(f['function'])
+            if hit is not None:
+                f['no_input'] = False
+                f['detail'] += (' || real failing input from the cross-check of the same contract on the real code: '
+                                + hit['detail'][:600])
+                f['real_input_replay'] = dict(mod=hit['mod'], fn=hit['fn'], case=hit['case'])
     # ---- level actually achieved -------------------------------------------------------------------
     level = cfg['level']
     expl = cfg['explanation']
